@@ -97,6 +97,18 @@ Theorem C17_flush_makes_durable :
     snd (run_op s OLoadRegions) = BRegions RDone (ldb s).
 Proof. exact flush_makes_durable_pf. Qed.
 
+(* LoadRegionsOnce sets its once-flag only after a successful load: a first call that fails half-way (an unreadable
+   value) delivers the regions below the bad one and changes nothing; the retry delivers every region; only then are
+   later calls skipped *)
+Theorem C17_load_once_retry :
+  forall s bad, SInv s -> use_rs s = true -> loaded_once s = false -> lookup (ldb s) bad <> None ->
+    let s1 := fst (run_op s (OLoadOnceCorrupt bad)) in
+    snd (run_op s (OLoadOnceCorrupt bad)) = BRegions RFailed (filter (fun p => fst p <? bad) (ldb s)) /\
+    s1 = s /\
+    snd (run_op s1 OLoadOnce) = BRegions RDone (filter (fun p => fst p <? range_end) (ldb s)) /\
+    snd (run_op (fst (run_op s1 OLoadOnce)) OLoadOnce) = BSkipped.
+Proof. exact load_once_retry_pf. Qed.
+
 (* a stop of the process inside a flush: the leveldb batch write is atomic, so leveldb holds either everything the
    batch carried or nothing of it *)
 Theorem C17_crash_in_flush_atomic :
@@ -171,6 +183,7 @@ Print Assumptions C17_load_returns_each_saved_once.
 Print Assumptions C17_load_regions_direct.
 Print Assumptions C17_flush_makes_durable.
 Print Assumptions C17_crash_keeps_flushed.
+Print Assumptions C17_load_once_retry.
 Print Assumptions C17_crash_in_flush_atomic.
 Print Assumptions C17_load_prunes_to_cache.
 Print Assumptions C17_prune_operation.
